@@ -135,7 +135,7 @@ def search(ctx, N):
 def run(ctx):
     import numdifftools as nd
     from numdifftools.finite_difference import LogJacobianRule
-    proof_stage(ctx, 'Props/C03.v')
+    proof_stage(ctx, ['Props/C03.v', 'Props/C03b.v'])
     rng = ctx.rng(1)
     # (a) LogJacobianRule._vstack on integer-labelled arrays vs Model/JacShape.v, all (n, m) and (n, m, k) in range
     c2, c3 = [], []
@@ -205,6 +205,6 @@ def run(ctx):
     ctx.sample({'vstack case': 'n=2, m=3: r = [[0,1,2],[3,4,5]] -> row [0,3,1,4,2,5], shape (3, 2)'})
     search(ctx, ctx.n(80, 800))
     ctx.assumptions += ['the layout theorems are index bijections on the model of _vstack (tied exhaustively on integer-labelled arrays for n <= 8, m <= 6, k <= 4); entries are tied bit-for-bit to the model of the extrapolation; "exact to rounding for affine f" and the accuracy envelope are explored by the sweep (affine maps with random non-symmetric A, nonlinear and matrix-valued maps with analytic Jacobians)']
-    return ctx.finish(level='proof', checker_cmd='make -C coq Props/C03.vo + coqc build/cases/C03_*.v',
+    return ctx.finish(level='proof', checker_cmd='make -C coq Props/C03.vo Props/C03b.vo + coqc build/cases/C03_*.v',
                       rule='_vstack: all n 1..8 x m 1..6 (x k 1..4) on labelled arrays (exhaustive in range); Jacobian/Gradient entries tied to the extrapolation model; sweep: affine / nonlinear / matrix-valued maps, gradients of quadratics for 3 shapes of x, directionaldiff, 5 methods, orders 2 and 4; '
                            'distinct = (kind, method or sizes) combinations hit')
